@@ -1,10 +1,126 @@
-/- Line-protocol driver for C17 (stub until the property's models exist). -/
+/-
+  Line-protocol driver for C17 (sensor reading conversion).
+
+    fwd  <fmt> <lin> <m> <b> <k1> <k2> <raw|n>   ->  none | DecodingError | ok <tag> <arg> <res>
+    fwdall <fmt> <lin> <m> <b> <k1> <k2>          ->  the 256 `fwd` answers for raw = 0..255, joined by ` ; `
+    spec <fmt> <lin> <m> <b> <k1> <k2> <raw|n>   ->  same shape, from Spec.Sensor (tag = table 43-1 code)
+    fwdsel / specsel <fmt> <lin> <m> <b> <k1> <k2> <r1,r2,…>   -> answers for the listed raws
+    invall <fs> <ss> <fmt> <lin> <m> <b> <k1> <k2> <rat>*      -> `inv` answers joined by ` ; `
+    lin  <tag> <rat>                              ->  <res>        (exact tags 0, 7, 8, 9 only)
+    inv  <formulaShipped:0|1> <signShipped:0|1> <fmt> <lin> <m> <b> <k1> <k2> <rat>
+                                                  ->  ok <int> <rawQ> | py:<Error>
+    tables                                        ->  linMask and the generated lin table
+
+  <rat> ::= <int>/<nat>;  <res> ::= <rat> | py:<Error> | ? (transcendental: the harness applies
+  Python's own function to <arg>).
+-/
 import PyIpmi.Base.Proto
-open PyIpmi.Proto
+import PyIpmi.Model.Sensor
+import PyIpmi.Spec.Sensor
+import PyIpmi.Gen.SdrTables
+open PyIpmi PyIpmi.Proto
+
+def showRat (q : Rat) : String := s!"{q.num}/{q.den}"
+
+def parseRat (s : String) : Option Rat :=
+  match s.splitOn "/" with
+  | [p] => (parseInt p).map (fun z => (z : Rat))
+  | [p, q] =>
+    match parseInt p, q.toNat? with
+    | some z, some d => if d = 0 then none else some ((z : Rat) / (d : Rat))
+    | _, _ => none
+  | _ => none
+
+/-- All transcendental functions answer `?`: encoded as a distinguished error. -/
+def opaqueFns : Spec.Sensor.Fns :=
+  let f : Rat → Outcome Rat := fun _ => .pyError "?"
+  ⟨f, f, f, f, f, f, f, f⟩
+
+def showRes : Outcome Rat → String
+  | .ok q => showRat q
+  | .pyError "?" => "?"
+  | e => e.tag
+
+def mkRec (fmt lin m b k1 k2 : String) : Option Sensor.Rec := do
+  let fmt ← fmt.toNat?
+  let lin ← lin.toNat?
+  let m ← parseInt m
+  let b ← parseInt b
+  let k1 ← parseInt k1
+  let k2 ← parseInt k2
+  pure ⟨fmt, lin, m, b, k1, k2⟩
+
+def fwdOne (r : Sensor.Rec) (raw : Option Nat) : String :=
+  match raw with
+  | none => "none"
+  | some x =>
+    match Sensor.linTag r.lin with
+    | none => "DecodingError"
+    | some t => s!"ok {t} {showRat (Sensor.arg r x)} {showRes (Sensor.applyTag opaqueFns t (Sensor.arg r x))}"
+
+def specOne (r : Sensor.Rec) (raw : Option Nat) : String :=
+  match raw with
+  | none => "none"
+  | some x =>
+    match Spec.Sensor.linOfCode (r.lin % 128) with
+    | none => "DecodingError"
+    | some l =>
+      let a := Spec.Sensor.affine ⟨r.m, r.b, r.k1, r.k2⟩ (Spec.Sensor.signed (Spec.Sensor.Fmt.ofCode r.fmt) x)
+      s!"ok {l.code} {showRat a} {showRes (Spec.Sensor.applyLin opaqueFns l a)}"
+
+def parseRaw (s : String) : Option (Option Nat) :=
+  if s == "n" then some none else s.toNat?.map some
 
 def handleC17 (line : String) : String :=
   match tokens line with
   | ["ping"] => "pong"
+  | ["tables"] => s!"{Gen.SdrTables.linMask} " ++
+      ",".intercalate (Gen.SdrTables.lin.map fun p => s!"{p.1}:{p.2}")
+  | ["fwd", fmt, lin, m, b, k1, k2, raw] =>
+    match mkRec fmt lin m b k1 k2, parseRaw raw with
+    | some r, some x => fwdOne r x
+    | _, _ => "bad-op"
+  | ["fwdall", fmt, lin, m, b, k1, k2] =>
+    match mkRec fmt lin m b k1 k2 with
+    | some r => " ; ".intercalate ((List.range 256).map fun x => fwdOne r (some x))
+    | none => "bad-op"
+  | ["spec", fmt, lin, m, b, k1, k2, raw] =>
+    match mkRec fmt lin m b k1 k2, parseRaw raw with
+    | some r, some x => specOne r x
+    | _, _ => "bad-op"
+  | ["specall", fmt, lin, m, b, k1, k2] =>
+    match mkRec fmt lin m b k1 k2 with
+    | some r => " ; ".intercalate ((List.range 256).map fun x => specOne r (some x))
+    | none => "bad-op"
+  | ["fwdsel", fmt, lin, m, b, k1, k2, raws] =>
+    match mkRec fmt lin m b k1 k2, parseNatList raws with
+    | some r, some xs => " ; ".intercalate (xs.map fun x => fwdOne r (some x))
+    | _, _ => "bad-op"
+  | ["specsel", fmt, lin, m, b, k1, k2, raws] =>
+    match mkRec fmt lin m b k1 k2, parseNatList raws with
+    | some r, some xs => " ; ".intercalate (xs.map fun x => specOne r (some x))
+    | _, _ => "bad-op"
+  | "invall" :: fs :: ss :: fmt :: lin :: m :: b :: k1 :: k2 :: qs =>
+    match mkRec fmt lin m b k1 k2, qs.mapM parseRat with
+    | some r, some xs =>
+      let v : Sensor.Variant := ⟨fs == "1", ss == "1"⟩
+      " ; ".intercalate (xs.map fun x =>
+        match Sensor.valueToRaw v r x with
+        | .ok z => s!"ok {z} {showRat (Sensor.rawQ v r x)}"
+        | e => e.tag)
+    | _, _ => "bad-op"
+  | ["lin", tag, q] =>
+    match tag.toNat?, parseRat q with
+    | some t, some x => showRes (Sensor.applyTag opaqueFns t x)
+    | _, _ => "bad-op"
+  | ["inv", fs, ss, fmt, lin, m, b, k1, k2, q] =>
+    match mkRec fmt lin m b k1 k2, parseRat q with
+    | some r, some x =>
+      let v : Sensor.Variant := ⟨fs == "1", ss == "1"⟩
+      match Sensor.valueToRaw v r x with
+      | .ok z => s!"ok {z} {showRat (Sensor.rawQ v r x)}"
+      | e => e.tag
+    | _, _ => "bad-op"
   | _ => "bad-op"
 
 def main : IO Unit := do
